@@ -133,6 +133,16 @@ def run_models(pid, tier, seed):
         res["curated_theories"] = res.get("theories", 0)
         res = merge_results([res, sw])
         assume = assume + ["corpus S (corpus/s, generated by lib/sgen.py): every rule with a premise of one atom or an unordered pair of atoms over z/p/c/q/f/t/m with at most three variables, modulo renaming, each with a witness conclusion; plus a pool of conclusion shapes on a fixed premise (candidates the compiler rejects are skipped and counted)"]
+    if pid == "C05":
+        # union-find half of the property: explicit-state search over the real eqlog_runtime::Unification
+        ub = common.build_engine("containers")
+        ur = common.run_engine(ub, ["C05", "--tier", tier], timeout=3600)
+        res["unification"] = {k: v for k, v in ur.items() if k not in ("violations", "samples")}
+        res["unification"]["samples"] = ur.get("samples", [])[:2]
+        for k in ("states", "transitions", "traces_validated_against_impl", "evaluations", "distinct_nontrivial"):
+            res[k] = res.get(k, 0) + ur.get(k, 0)
+        res["violations"] = list(res.get("violations", [])) + list(ur.get("violations", []))
+        assume = assume + ["union-find: every reachable parent vector of eqlog_runtime::Unification<u32> over at most 6 (quick) / 7 (thorough) elements under root / union_roots_into / increase_size_to, against a plain partition"]
     viol = res.get("violations", [])
     neg = negative_corpus(pid)
     viol += neg["violations"]
@@ -170,6 +180,9 @@ def replay_models(pid, path):
     with open(path) as f:
         case = json.load(f)
     case = case.get("replay", case)
+    if "unification_ops" in case:
+        binary = common.build_engine("containers")
+        return subprocess.run([binary, pid, "--replay", path], env=common.env_offline()).returncode
     if "negative_program" in case:
         common.build_compiler()
         neg = negative_corpus(pid)
